@@ -464,6 +464,7 @@ def case_combine(ctx, rng, idx):
         p = SimulationParameters()
         p.add("fixed", 7)
         p.add("label", "x")
+        p.add("rep_max", 50)          # (every set produced by a runner carries it)
         for nm in unp:
             p.add(nm, vals_by_name[nm])
             p.set_unpack_parameter(nm)
@@ -520,6 +521,39 @@ def case_combine(ctx, rng, idx):
         ctx.ev("combine-per-combination", diff is None,
                cls="%s:%s:%s" % (TNAME[t], "both" if key in st1 and key in st2 else "one", diff),
                detail=lambda: {**tag, "key": key, "got": stats(got), "want": stats(ref)})
+    ctx.ev("combine-per-combination", set(up.parameters.keys()) == set(sr1.params.parameters.keys())
+           and up["rep_max"] == 50 and up["label"] == "x", cls="union-keeps-fixed-parameters",
+           detail={**tag, "union_keys": sorted(up.parameters.keys())})
+    # three sets, combined in two steps in both groupings
+    if idx % 2 == 0:
+        v3 = {nm: pick(universe[nm]) for nm in unp}
+        okc, r3 = ctx.call("combine-per-combination", make, v3, detail=tag)
+        if okc:
+            sr3, st3 = r3
+            tag3 = {**tag, "values3": {k: v.tolist() for k, v in v3.items()}}
+            okc, ua = ctx.call("combine-per-combination", lambda: combine_simulation_results(
+                combine_simulation_results(sr1, sr2), sr3), cls="nested:(A+B)+C raised", detail=tag3)
+            okc2, ub = ctx.call("combine-per-combination", lambda: combine_simulation_results(
+                sr1, combine_simulation_results(sr2, sr3)), cls="nested:A+(B+C) raised", detail=tag3)
+            if okc and okc2:
+                va = ua.params.get_unpacked_params_list()
+                same_grid = len(ua["r"]) == len(ub["r"]) == len(va) and all(
+                    np.array_equal(np.asarray(ua.params[nm]), np.asarray(ub.params[nm]))
+                    for nm in unp)
+                ctx.ev("combine-per-combination", same_grid, cls="nested:grids-differ", detail=tag3)
+                if same_grid:
+                    for var, ga, gb in zip(va, ua["r"], ub["r"]):
+                        key = tuple(float(var[nm]) for nm in unp)
+                        obs = st1.get(key, []) + st2.get(key, []) + st3.get(key, [])
+                        if not obs:
+                            continue
+                        ref = accumulate("r", t, acc, obs)
+                        da = same_stats(stats(ga), stats(ref), True, len(obs))
+                        db = same_stats(stats(gb), stats(ref), True, len(obs))
+                        ctx.ev("combine-per-combination", da is None and db is None,
+                               cls="nested:%s:%s/%s" % (TNAME[t], da, db),
+                               detail=lambda: {**tag3, "key": key, "(A+B)+C": stats(ga),
+                                               "A+(B+C)": stats(gb), "want": stats(ref)})
     ctx.sig("combine", TNAME[t], nunp, overlap)
     ctx.sample("combine", tag)
 
